@@ -5,6 +5,7 @@ C12 — `send` never silently discards a message.
 generated table: `set` may park, every other command is written at once).
 -/
 import AioMySensors.Properties.C07
+import AioMySensors.Model.Objects
 
 namespace AioMySensors.C12
 open AioMySensors M C07
@@ -101,6 +102,320 @@ theorem only_set_is_ever_held (m : Msg) (b : Bool) (w : W) (h : m.cmd = 0 ∨ m.
   simp only [transportWrite]
   split <;> rfl
 
+/-! ### The caller's own `Message` objects
+
+`Model/Objects.lean`: the caller keeps its objects, assigns to their attributes and hands the same instance to `send`
+again; a held command is held as the caller's object.  "The message" of a call is the object as it reads at the call;
+what a wake releases is the object as it reads at the wake. -/
+
+/-- **`send` has no memory of earlier calls.**  Handing one of the caller's objects to `send` is the send of the
+message that object reads now — whatever was done with the same instance before (sent, held, assigned to): outcome,
+write attempts and the gateway's state are those of `apiSend` on the gateway state alone. -/
+theorem sendObj_is_send_of_what_it_reads (o : OSt) (h : ObjId) (b : Bool) (fs : List Fault) :
+    (ostep o (.sendObj h b fs)).2 = (stepOp o.gw (.send (o.heap.get? h) b fs)).2 ∧
+    (ostep o (.sendObj h b fs)).1.gw = (stepOp o.gw (.send (o.heap.get? h) b fs)).1 := by
+  simp only [ostep]
+  cases o.heap.get? h <;> exact ⟨rfl, rfl⟩
+
+/-- After an assignment the object reads what was assigned … -/
+theorem assign_reads (o : OSt) (h : ObjId) (m : Msg) : (ostep o (.assign h m)).1.heap.get? h = some m :=
+  PDict.get?_set_self _ _ _
+
+/-- … and an assignment by itself writes nothing and changes nothing of the gateway but the entries of the sleep
+buffer that ARE this object. -/
+theorem assign_touches_only_its_entries (o : OSt) (h : ObjId) (m : Msg) :
+    (ostep o (.assign h m)).2.writes = [] ∧
+    (ostep o (.assign h m)).1.gw = { o.gw with sbuf := assignSbuf o.refs h m o.gw.sbuf } := ⟨rfl, rfl⟩
+
+/-- What a `send` step does to the gateway: the message is now the buffer's entry for its key and the call showed
+nothing (`held`), or the state is what it was. -/
+theorem send_step_cases (st : St) (m : Msg) (b : Bool) (fs : List Fault) :
+    ((stepOp st (.send (some m) b fs)).2.held = true ∧
+        (stepOp st (.send (some m) b fs)).1 = { st with sbuf := st.sbuf.set m.key m }) ∨
+    ((stepOp st (.send (some m) b fs)).2.held = false ∧ (stepOp st (.send (some m) b fs)).1 = st) := by
+  have hw : ∀ l, ((match transportWrite l { st := st, faults := fs } with
+        | (.ok (), w) => (w.st, (⟨.ok none, w.writes⟩ : Obs))
+        | (.error e, w) => (w.st, ⟨.error e, w.writes⟩)).2.held = false) ∧
+      (match transportWrite l { st := st, faults := fs } with
+        | (.ok (), w) => (w.st, (⟨.ok none, w.writes⟩ : Obs))
+        | (.error e, w) => (w.st, ⟨.error e, w.writes⟩)).1 = st := by
+    intro l
+    simp only [transportWrite]
+    cases fs with
+    | nil => simp [Obs.held]
+    | cons f rest => cases f <;> simp [Obs.held]
+  simp only [stepOp, apiSend, gwSend, M.bind, M.getSt]
+  cases hl : (Gen.outgoingHandlers st.proto).lookup m.cmd with
+  | none => right; simp [M.raise, Obs.held]
+  | some o =>
+    cases o with
+    | none => right; simp [M.raise, Obs.held]
+    | some ob =>
+      cases ob with
+      | direct => right; exact hw _
+      | set14 =>
+        cases hn : st.nodes.get? m.node with
+        | none => right; exact hw _
+        | some node =>
+          by_cases hb : (b && node.sleeping) = true
+          · left; simp [hb, M.modifySt, Obs.held]
+          · have hb' : (b && node.sleeping) = false := by simpa using hb
+            right; simp only [hb']; exact hw _
+
+/-- **Trichotomy for the caller's object**: a `send` of object `h`, reading `m` at the call, hands exactly the line of
+`m` to the transport; or `m` is held for its sleeping destination — as the caller's object `h`; or the transport's
+error is raised after the one failed attempt.  Nothing of an earlier send of the same instance shows. -/
+theorem object_trichotomy (o : OSt) (h : ObjId) (m : Msg) (b : Bool) (fs : List Fault) (hm : o.heap.get? h = some m)
+    (hcmd : m.cmd ∈ [(0 : Int), 1, 2, 3, 4]) :
+    ((ostep o (.sendObj h b fs)).2.out = .ok none ∧ (ostep o (.sendObj h b fs)).2.writes = [⟨encode m, true⟩] ∧
+        (ostep o (.sendObj h b fs)).1.gw = o.gw) ∨
+    ((ostep o (.sendObj h b fs)).2.out = .ok none ∧ (ostep o (.sendObj h b fs)).2.writes = [] ∧
+        (ostep o (.sendObj h b fs)).1.gw.sbuf.get? m.key = some m ∧ (ostep o (.sendObj h b fs)).1.refs.get? m.key = some h ∧
+        Sleeping o.gw m.node ∧ m.cmd = 1 ∧ b = true) ∨
+    (((ostep o (.sendObj h b fs)).2.out = .error (.lib .transportFailed) ∨
+        (ostep o (.sendObj h b fs)).2.out = .error (.foreign .CancelledError) ∧ fs.head? = some .cancel) ∧
+        (ostep o (.sendObj h b fs)).2.writes = [⟨encode m, false⟩] ∧ (ostep o (.sendObj h b fs)).1.gw = o.gw) := by
+  have ht := send_trichotomy m b { st := o.gw, faults := fs } hcmd
+  simp only [ostep, hm, stepOp]
+  generalize hr : apiSend (some m) b { st := o.gw, faults := fs } = r at ht
+  obtain ⟨out, w⟩ := r
+  cases out with
+  | ok u =>
+    cases u
+    simp only [errOf] at ht
+    rcases ht with ⟨_, hwr, hst⟩ | ⟨_, hwr, hheld, hs, h1, hb⟩ | ⟨he, _, _⟩
+    · left
+      simp only [List.nil_append] at hwr
+      exact ⟨rfl, hwr, hst⟩
+    · right; left
+      refine ⟨rfl, hwr, hheld, ?_, hs, h1, hb⟩
+      have hwr' : w.writes = [] := hwr
+      simp [Obs.held, hwr', PDict.get?_set_self]
+    · rcases he with he | ⟨he, _⟩ <;> cases he
+  | error e =>
+    simp only [errOf] at ht
+    rcases ht with ⟨he, _, _⟩ | ⟨he, _⟩ | ⟨he, hwr, hst⟩
+    · cases he
+    · cases he
+    · right; right
+      simp only [List.nil_append] at hwr
+      refine ⟨?_, hwr, hst⟩
+      rcases he with he | ⟨he, hc⟩
+      · left; cases he; rfl
+      · right; cases he; exact ⟨rfl, hc⟩
+
+/-- **Sent again after an assignment: the line of the message as it reads now.**  Whatever the state and whatever was
+done with object `h` before (sent, written, held), once the caller has assigned `m` to it a send that is not held
+(no write fault scheduled) hands exactly `encode m` to the transport and returns normally. -/
+theorem resend_after_assignment_writes_current_line (o : OSt) (h : ObjId) (m : Msg) (b : Bool)
+    (hcmd : m.cmd ∈ [(0 : Int), 1, 2, 3, 4]) (hdirect : m.cmd ≠ 1 ∨ b = false ∨ ¬ Sleeping o.gw m.node) :
+    (ostep (ostep o (.assign h m)).1 (.sendObj h b [])).2 = ⟨.ok none, [⟨encode m, true⟩]⟩ := by
+  rw [(sendObj_is_send_of_what_it_reads _ h b []).1, assign_reads]
+  have key : apiSend (some m) b { st := (ostep o (.assign h m)).1.gw, faults := [] } =
+      (.ok (), { st := (ostep o (.assign h m)).1.gw, faults := [], writes := [⟨encode m, true⟩] }) := by
+    by_cases h1 : m.cmd = 1
+    · have hd : b = false ∨ ¬ Sleeping (ostep o (.assign h m)).1.gw m.node := by
+        rcases hdirect with hd | hd | hd
+        · exact absurd h1 hd
+        · exact Or.inl hd
+        · exact Or.inr hd
+      exact send_direct_writes m b { st := (ostep o (.assign h m)).1.gw, faults := [] } h1 hd rfl
+    · have hd : m.cmd = 0 ∨ m.cmd = 2 ∨ m.cmd = 3 ∨ m.cmd = 4 := by
+        simp only [List.mem_cons, List.mem_nil_iff, or_false] at hcmd
+        omega
+      show gwSend m b _ = _
+      rw [gwSend_direct m b hd, transportWrite_ok _ _ rfl]
+      rfl
+  simp only [stepOp, key]
+
+/-! #### What is held is the caller's object: `refs` tells the truth along every history -/
+
+/-- One iteration of `listen` only ever REMOVES entries of the sleep buffer (it never adds or rewrites one): whatever
+line arrives, in whatever state, under whatever fault schedule. -/
+def OnlyErases : W → W → Prop := OnSt fun s s' =>
+  PDict.WF s.sbuf → PDict.WF s'.sbuf ∧ ∀ k v, s'.sbuf.get? k = some v → s.sbuf.get? k = some v
+
+theorem onlyErases_preO : PreO OnlyErases :=
+  OnSt.preO (fun _ h => ⟨h, fun _ _ hv => hv⟩)
+    (fun h1 h2 hwf => ⟨(h2 (h1 hwf).1).1, fun k v hv => (h1 hwf).2 k v ((h2 (h1 hwf).1).2 k v hv)⟩)
+
+theorem onlyErases_same {f : St → St} (h : ∀ s, (f s).sbuf = s.sbuf) : Rel OnlyErases (modifySt f) :=
+  Rel.modifySt f fun s hwf => by rw [h s]; exact ⟨hwf, fun _ _ hv => hv⟩
+
+theorem onlyErases_stepRel (m : Msg) : StepRel OnlyErases m where
+  pre := onlyErases_preO
+  write := fun _ _ => Rel.transportWrite
+    (S := fun s s' => PDict.WF s.sbuf → PDict.WF s'.sbuf ∧ ∀ k v, s'.sbuf.get? k = some v → s.sbuf.get? k = some v)
+    (fun _ h => ⟨h, fun _ _ hv => hv⟩) _
+  setNode := fun _ => onlyErases_same fun _ => rfl
+  alloc := onlyErases_same fun _ => rfl
+  erase := fun k bm _ => Rel.modifySt _ fun s hwf => by
+    split
+    · refine ⟨PDict.wf_erase hwf _, fun k' v hv => ?_⟩
+      by_cases hk : k' = k
+      · subst hk
+        have := PDict.has_erase_self hwf k'
+        simp [PDict.has, hv] at this
+      · rwa [PDict.get?_erase_ne _ hk] at hv
+    · exact ⟨hwf, fun _ _ hv => hv⟩
+  mark := onlyErases_same fun _ => rfl
+  unmark := onlyErases_same fun s => by split <;> rfl
+  version := fun _ _ => onlyErases_same fun _ => rfl
+
+theorem recv_only_erases (env : Env) (line : Str) (w : W) (hwf : PDict.WF w.st.sbuf) :
+    PDict.WF (recv env line w).2.st.sbuf ∧
+    ∀ k v, (recv env line w).2.st.sbuf.get? k = some v → w.st.sbuf.get? k = some v :=
+  (rel_recv onlyErases_preO (fun _ m _ => onlyErases_stepRel m) (ParkOK.of_flags reaction_flags_off) env).step w hwf
+
+/-- `refs` tells the truth: an entry of the sleep buffer that is recorded as the caller's object `h` reads exactly
+what `h` reads now (and neither dictionary holds a key twice). -/
+def RefsOK (o : OSt) : Prop :=
+  PDict.WF o.gw.sbuf ∧ PDict.WF o.refs ∧
+  ∀ k h, o.refs.get? k = some h → ∃ m, o.heap.get? h = some m ∧ o.gw.sbuf.get? k = some m
+
+theorem keys_assignSbuf (refs : PDict Key ObjId) (h : ObjId) (m : Msg) (d : PDict Key Msg) :
+    PDict.keys (assignSbuf refs h m d) = PDict.keys d := by
+  induction d with
+  | nil => rfl
+  | cons e rest ih =>
+    simp only [assignSbuf, PDict.keys, List.map_cons] at ih ⊢
+    rw [ih]
+    split <;> rfl
+
+theorem get?_assignSbuf (refs : PDict Key ObjId) (h : ObjId) (m : Msg) (d : PDict Key Msg) (k : Key) :
+    (assignSbuf refs h m d).get? k = (d.get? k).map fun v => if refs.get? k = some h then m else v := by
+  induction d with
+  | nil => rfl
+  | cons e rest ih =>
+    obtain ⟨k', v⟩ := e
+    simp only [assignSbuf, List.map_cons] at ih ⊢
+    by_cases hk : k' = k
+    · subst hk
+      by_cases hr : refs.get? k' = some h <;> simp [hr, PDict.get?]
+    · by_cases hr : refs.get? k' = some h <;> simp [hr, PDict.get?, hk, ih]
+
+theorem PDict.wf_filter {κ α : Type} [DecidableEq κ] {d : PDict κ α} (h : PDict.WF d) (p : κ × α → Bool) :
+    PDict.WF (d.filter p) :=
+  List.Nodup.sublist (List.Sublist.map _ List.filter_sublist) h
+
+theorem PDict.get?_filter {κ α : Type} [DecidableEq κ] {d : PDict κ α} (h : PDict.WF d) {p : κ × α → Bool} {k : κ} {v : α}
+    (hv : PDict.get? (d.filter p) k = some v) : PDict.get? d k = some v ∧ p (k, v) = true := by
+  have hm := List.mem_filter.mp (PDict.get?_eq_some_mem hv)
+  exact ⟨PDict.get?_of_mem_wf h hm.1, hm.2⟩
+
+theorem refsOK_init : RefsOK {} := by
+  refine ⟨?_, ?_, fun k h hk => ?_⟩
+  · simp [PDict.WF, PDict.keys]
+  · simp [PDict.WF, PDict.keys]
+  · simp [PDict.get?] at hk
+
+/-- **`refs` tells the truth after every operation** — a received line (a release included), a send of a message built
+for the call, a send of one of the caller's objects, an assignment to one of them (held or not). -/
+theorem refsOK_step (o : OSt) (op : OOp) (hok : RefsOK o) : RefsOK (ostep o op).1 := by
+  obtain ⟨hwf, hrwf, href⟩ := hok
+  cases op with
+  | assign h m =>
+    refine ⟨?_, hrwf, fun k h' hk => ?_⟩
+    · show PDict.WF (assignSbuf o.refs h m o.gw.sbuf)
+      unfold PDict.WF
+      rw [keys_assignSbuf]
+      exact hwf
+    · replace hk : o.refs.get? k = some h' := hk
+      obtain ⟨m0, hm0, hs0⟩ := href k h' hk
+      show ∃ m', (o.heap.set h m).get? h' = some m' ∧ (assignSbuf o.refs h m o.gw.sbuf).get? k = some m'
+      rw [get?_assignSbuf, hs0]
+      by_cases hh : h' = h
+      · subst hh
+        exact ⟨m, PDict.get?_set_self _ _ _, by simp [hk]⟩
+      · refine ⟨m0, by rw [PDict.get?_set_ne _ _ hh]; exact hm0, ?_⟩
+        have : o.refs.get? k ≠ some h := by rw [hk]; intro he; exact hh (Option.some.inj he)
+        simp [this]
+  | sendObj h b fs =>
+    simp only [ostep]
+    cases hm : o.heap.get? h with
+    | none => exact ⟨hwf, hrwf, href⟩
+    | some m =>
+      rcases send_step_cases o.gw m b fs with ⟨hheld, hst⟩ | ⟨hheld, hst⟩
+      · simp only [hheld, hst, if_true]
+        refine ⟨PDict.wf_set hwf _ _, PDict.wf_set hrwf _ _, fun k h' hk => ?_⟩
+        by_cases hkk : k = m.key
+        · subst hkk
+          rw [PDict.get?_set_self] at hk
+          cases hk
+          exact ⟨m, hm, PDict.get?_set_self _ _ _⟩
+        · rw [PDict.get?_set_ne _ _ hkk] at hk
+          obtain ⟨m0, hm0, hs0⟩ := href k h' hk
+          exact ⟨m0, hm0, by rw [PDict.get?_set_ne _ _ hkk]; exact hs0⟩
+      · simp only [hheld, hst]
+        exact ⟨hwf, hrwf, href⟩
+  | plain op =>
+    cases op with
+    | send obj b fs =>
+      simp only [ostep]
+      cases obj with
+      | none => exact ⟨hwf, hrwf, href⟩
+      | some m =>
+        rcases send_step_cases o.gw m b fs with ⟨hheld, hst⟩ | ⟨hheld, hst⟩
+        · simp only [hheld, hst, if_true]
+          refine ⟨PDict.wf_set hwf _ _, PDict.wf_erase hrwf _, fun k h' hk => ?_⟩
+          have hkk : k ≠ m.key := by
+            intro he; subst he
+            have := PDict.has_erase_self hrwf m.key
+            simp [PDict.has, hk] at this
+          rw [PDict.get?_erase_ne _ hkk] at hk
+          obtain ⟨m0, hm0, hs0⟩ := href k h' hk
+          exact ⟨m0, hm0, by rw [PDict.get?_set_ne _ _ hkk]; exact hs0⟩
+        · simp only [hheld, hst]
+          exact ⟨hwf, hrwf, href⟩
+    | recv env line fs =>
+      have hre := recv_only_erases env line { st := o.gw, faults := fs } hwf
+      have hst : (stepOp o.gw (.recv env line fs)).1 = (recv env line { st := o.gw, faults := fs }).2.st := by
+        simp only [stepOp]; split <;> next heq => simp [heq]
+      simp only [ostep, hst]
+      refine ⟨hre.1, PDict.wf_filter hrwf _, fun k h' hk => ?_⟩
+      obtain ⟨hk0, hp⟩ := PDict.get?_filter hrwf hk
+      obtain ⟨m0, hm0, hs0⟩ := href k h' hk0
+      refine ⟨m0, hm0, ?_⟩
+      simp only [PDict.has, Option.isSome_iff_exists] at hp
+      obtain ⟨v, hv⟩ := hp
+      have := hre.2 k v hv
+      rw [hs0] at this
+      cases this
+      exact hv
+
+theorem refsOK_history (ops : List OOp) (o : OSt) (hok : RefsOK o) : RefsOK (orun o ops).1 := by
+  induction ops generalizing o with
+  | nil => exact hok
+  | cons op ops ih => exact ih _ (refsOK_step o op hok)
+
+/-- **A wake releases the held objects as they read now.**  In any state in which the records of `refs` are true (every
+state a history reaches: `refsOK_history`), if the buffer's entry under `k` is the caller's object `h`, now reading `m`
+— whatever it read when it was held, whatever key it was held under, whatever was assigned to it since — then the wake
+signal of the node `m` is addressed to hands `encode m` to the transport (the writes succeeding; every held command
+still being a set command).  -/
+theorem held_object_released_as_it_reads_now (o : OSt) (k : Key) (h : ObjId) (m wake : Msg) (hok : RefsOK o)
+    (hk : o.refs.get? k = some h) (hm : o.heap.get? h = some m) (hnode : m.node = wake.node)
+    (hset : ∀ e ∈ o.gw.sbuf, e.2.cmd = 1) :
+    (⟨encode m, true⟩ : WriteEvt) ∈ (flush wake { st := o.gw }).2.writes ∧ (flush wake { st := o.gw }).2.st.sbuf.get? k = none := by
+  obtain ⟨hwf, _, href⟩ := hok
+  obtain ⟨m', hm', hs⟩ := href k h hk
+  rw [hm] at hm'; cases hm'
+  have hmem : (k, m) ∈ o.gw.sbuf := PDict.get?_eq_some_mem hs
+  have hsnap : (k, m) ∈ snapshotOf o.gw wake.node := List.mem_filter.mpr ⟨hmem, by simp [hnode]⟩
+  rw [flush_eq, flushList_nofault (snapshotOf o.gw wake.node) { st := o.gw } hwf
+    (fun e he => hset e (List.mem_filter.mp he).1) (fun e he => (List.mem_filter.mp he).1)
+    (snapshot_keys_nodup _ _ hwf) rfl]
+  constructor
+  · simp only [List.nil_append, List.mem_map]
+    exact ⟨(k, m), hsnap, rfl⟩
+  · show (eraseAll o.gw.sbuf ((snapshotOf o.gw wake.node).map (·.1))).get? k = none
+    cases hg : (eraseAll o.gw.sbuf ((snapshotOf o.gw wake.node).map (·.1))).get? k with
+    | none => rfl
+    | some v =>
+      exfalso
+      have := (mem_eraseAll hwf _ (k, v)).mp (PDict.get?_eq_some_mem hg)
+      exact this.2 (List.mem_map.mpr ⟨(k, m), hsnap, rfl⟩)
+
 /-! Non-vacuity: each of the three outcomes occurs. -/
 example : errOf (apiSend (some ⟨1, 255, 3, 0, 13, []⟩) true { st := {} }).1 = none := by decide
 example : (apiSend (some ⟨1, 0, 1, 0, 2, ['7']⟩) true
@@ -110,5 +425,17 @@ example : errOf (apiSend (some ⟨1, 0, 2, 0, 2, []⟩) false { st := {}, faults
   decide
 example : errOf (apiSend (some ⟨1, 0, 2, 0, 2, []⟩) false { st := {}, faults := [.cancel] }).1 = some (.foreign .CancelledError) := by
   decide
+
+/-! Non-vacuity of the object layer: one object switched on and off (awake destination: both lines are written, the
+second one as the object reads at the second call); one object held for a sleeping node under two keys after an
+assignment to its child id, both entries recorded as that object and reading what it reads now. -/
+example : ((orun { gw := { nodes := [(1, { ntype := 17, pv := [] })] } }
+    [.assign 7 ⟨1, 0, 1, 0, 2, ['1']⟩, .sendObj 7 true [], .assign 7 ⟨1, 0, 1, 0, 2, ['0']⟩, .sendObj 7 true []]).2.map (·.writes))
+    = [[], [⟨encode ⟨1, 0, 1, 0, 2, ['1']⟩, true⟩], [], [⟨encode ⟨1, 0, 1, 0, 2, ['0']⟩, true⟩]] := by decide
+
+example : let o := (orun { gw := { nodes := [(1, { ntype := 17, pv := [], sleeping := true })] } }
+      [.assign 7 ⟨1, 0, 1, 0, 2, ['1']⟩, .sendObj 7 true [], .assign 7 ⟨1, 1, 1, 0, 2, ['1']⟩, .sendObj 7 true []]).1
+    o.refs = [((1, 0, 2), 7), ((1, 1, 2), 7)] ∧
+    o.gw.sbuf = [((1, 0, 2), ⟨1, 1, 1, 0, 2, ['1']⟩), ((1, 1, 2), ⟨1, 1, 1, 0, 2, ['1']⟩)] := by decide
 
 end AioMySensors.C12
